@@ -5,6 +5,7 @@ From Coq Require Import Extraction ExtrOcamlBasic ZArith List.
 From Rosed Require Import Base.Cls Base.Res Base.ListX Base.Utf8 Base.Str Base.Intervals
      Gem.Break Gem.Dfa Gem.Segment Gem.GString
      Model.Util Model.Tb Model.Manip Model.Table Model.Options Model.Editor Model.Ops Model.Hist
+     Check.Common Check.Select Check.Layout Check.Blocks Check.Paras
      Inst.Go Inst.GoUpper.
 Extraction Language OCaml.
 Separate Extraction
@@ -12,6 +13,17 @@ Separate Extraction
   Gem.Segment.clusters Gem.Segment.split_runes Gem.Break.split
   Base.Utf8.decode Base.Utf8.encode Base.Utf8.valid_utf8
   Model.Hist.run_hist Model.Hist.observe Model.Hist.run_op
-  Model.Options.with_defaults Model.Util.range_to_indexes
+  Model.Options.with_defaults Model.Options.options_eqb Check.Select.commit_expected Model.Util.range_to_indexes
   Model.Manip.is_space
+  Check.Common.seam_safe Check.Common.contains Check.Common.pieces_safe Check.Common.plain_cfg Check.Common.norm
+  Check.Select.guard_C04 Check.Select.check_C04 Check.Select.check_charcount
+  Check.Select.guard_C09 Check.Select.check_C09
+  Check.Select.guard_C10 Check.Select.check_C10_sel Check.Select.check_linecount Check.Select.apply_expected
+  Check.Select.check_C05_commit Check.Select.lines_of
+  Check.Layout.guard_C06 Check.Layout.check_C06 Check.Layout.guard_C07 Check.Layout.check_C07_same
+  Check.Layout.check_C07_collapse Check.Layout.check_C07_wrap Check.Layout.count_occ_sep
+  Check.Layout.guard_C13 Check.Layout.check_C13 Check.Layout.guard_C12 Check.Layout.check_C12
+  Check.Paras.guard_C11 Check.Paras.check_C11_cb Check.Paras.guard_C11_hom Check.Paras.check_C11_hom Check.Paras.sep_suffix Check.Paras.sep_prefix
+  Check.Blocks.guard_C14 Check.Blocks.check_C14 Check.Blocks.guard_C15 Check.Blocks.check_C15
+  Check.Blocks.guard_C16 Check.Blocks.check_C16
   Z.of_nat Z.to_nat Z.add Z.sub Z.mul Z.opp Z.eqb Z.ltb Z.leb Z.div Z.modulo Z.abs Pos.succ.
